@@ -68,6 +68,8 @@ pub struct Ctx {
     pub sample_every: u64,
     /// breadcrumb file: the case being executed, rewritten before every case
     pub crumb: Option<std::fs::File>,
+    /// cases of the current family tolerate leaks (lying iterators under the sampled runner)
+    pub leaks_ok_default: bool,
     /// accumulate per-configuration observation digests (C19)
     pub digest_on: bool,
     /// run a seeded stratified sample of the case space instead of enumerating it (slow tools)
